@@ -36,9 +36,13 @@ def run_block(chk, repo, rid_prefix, q, kind, single_rule=None, rule_override=No
 
 def bounds_rule(chk, repo, rid, fi, dname='D'):
     # the allocation bound and its assertion
-    md = [s for s in ast.walk(fi.node) if isinstance(s, ast.Assign) and norm(s.value) == f'min({fi.params[0]}.shape)']
+    A_ = fi.params[0]
+    spellings = {f'min({A_}.shape)', f'min({A_}.shape[0], {A_}.shape[1])', f'min({A_}.shape[1], {A_}.shape[0])',
+                 f'min(*{A_}.shape)', f'np.min({A_}.shape)'}
+    md = [s for s in ast.walk(fi.node) if isinstance(s, ast.Assign) and norm(s.value) in spellings]
     asserts = [norm(a.test) for a in ast.walk(fi.node) if isinstance(a, ast.Assert)]
-    ok = len(md) == 1 and any(t == f'{dname} <= {norm(md[0].targets[0])}' for t in asserts)
+    ok = len(md) == 1 and any(t in (f'{dname} <= {norm(md[0].targets[0])}', f'{norm(md[0].targets[0])} >= {dname}')
+                              for t in asserts)
     chk.ob(rid, where(repo, fi, md[0] if md else fi.node), f'{fi.name}: intermediate dimension is allocated as min(rows, cols) '
            f'and asserted not to be exceeded', ok, f'asserts: {asserts[-3:]}', key=f'{rid}|{fi.qual}|bound')
     pre = {f'{fi.params[0]}.ndim == 2', f'len({fi.params[1]}) == {fi.params[0]}.shape[0]',
